@@ -1,6 +1,7 @@
 import Driver.EncSuite
 import Driver.PartSuite
 import Driver.PMapSuite
+import Driver.LpmSuite
 /-!
   Model driver.  usage: driver <suite> < ops-file
   Reads lines; `case N` is echoed (and resets suite state), `op ...` produces
@@ -37,5 +38,6 @@ def main (args : List String) : IO UInt32 := do
   match args with
   | ["enc"] => loopStateless stdin stdout Enc.step; return 0
   | ["part"] => loopState stdin stdout Part.step (default : Part.S); return 0
+  | ["lpm"] => loopState stdin stdout LpmS.step (default : LpmS.S); return 0
   | ["pmap"] => loopState stdin stdout PMapS.step (default : PMapS.S); return 0
   | _ => IO.eprintln "usage: driver <suite>"; return 2
